@@ -111,6 +111,13 @@ def run():
                 known = {c["key"] for c in cases}
                 cases += [c for c in _dedupe(rs.records) if c["key"] not in known]
             ego = f_bin.result()
+        # first use of a fresh HOME creates ego's profile and databases; concurrent first uses race with each other
+        # ("table ... already exists"), so do it once, alone, before anything runs side by side
+        wp = os.path.join(sd, "warm.ego")
+        open(wp, "w").write('package main\nimport "fmt"\nfunc main() {\n\tfmt.Printf("warm\\n")\n}\n')
+        pw = vf.run([ego, "run", wp], cwd=sd, env=env, timeout=600)
+        if pw.returncode != 0 or "warm" not in pw.stdout:
+            raise vf.NoVerdict("the built ego binary does not run a trivial program: %s %s" % (pw.stdout[-500:], pw.stderr[-500:]))
         if nex < 100 or len(cases) - nex < 100:
             raise vf.NoVerdict("generator too weak: %d exhaustive, %d sampled cases" % (nex, len(cases) - nex))
         # 3b. the specification itself is cross-checked against Go on the cases that are legal Go
@@ -141,12 +148,13 @@ def run():
             files.append(b)
         runs = _run_files(ego, env, sd, files, "b", both_opt=thorough)
         suspects, nlines, nrun, firstobs = [], 0, 0, None
-        late = [(b, opt, p) for b, opt, (rc, so, se), p in runs if rc is None]
+        # a process that timed out, or never reached the first case, says nothing about the cases in it
+        late = [(b, opt, p) for b, opt, (rc, so, se), p in runs if rc is None or "== 0" not in so]
         if late:        # an overloaded machine, not a verdict: one more attempt, alone, then give up
             again = vf.run_many([([ego, "run", "-o", opt, p], None, sd, env) for b, opt, p in late], nproc=4, timeout=600)
             if any(r[0] is None for r in again):
                 raise vf.NoVerdict("%d generated programs did not finish within 600 s" % sum(r[0] is None for r in again))
-            runs = [x for x in runs if x[2][0] is not None] + [(b, opt, r, p) for (b, opt, p), r in zip(late, again)]
+            runs = [x for x in runs if not (x[2][0] is None or "== 0" not in x[2][1])] + [(b, opt, r, p) for (b, opt, p), r in zip(late, again)]
         for b, opt, (rc, so, se), p in runs:
             obs = egoctl.observe(rc, so, se, len(b))
             if firstobs is None and rc == 0:
